@@ -25,6 +25,14 @@ PROP = {
     ],
 }
 
+import re as _re
+def _fatal_differs(case):
+    a = _re.search(r"fatal=(\d)", case["impl"]); b = _re.search(r"fatal=(\d)", case["model"])
+    return bool(a and b and a.group(1) != b.group(1)) or (("=> ok" in case["impl"]) != ("=> ok" in case["model"]))
+PROP["jobs"].append({"harness": "h_funnel", "comp": "funnel", "n_quick": 4000, "n_thorough": 100000, "relevant": _fatal_differs,
+                     "why": "the fatal / transient classification (or ok vs error) of the error a real funnel.Worker pass ends with differs from the "
+                            "model's for the same plugin scripts: the lifecycle service would degrade where it should recover or vice versa (C10 cause classification)"})
+
 META = {
     "text": "Lean 4 theorems over the lifecycle event system M5 (both engines, every event list = every interleaving of control calls, "
             "start-up, node failures, cleanup goroutines, recovery timers and store failures): a fatal tomb reason is classified Degraded "
